@@ -551,3 +551,15 @@ def check_stats_only(ctx):
     rs = ctx.fork("stats")
     stat_vector(ctx, rs, min(1000000, ctx.budget(20000, 1000000)))
     stat_fit(ctx, rs, min(40000, ctx.budget(1500, 20000)))
+
+
+def generate(ctx):
+    """translator tie: epsilon_p, delta and scale of Vector.randomise are re-read from /repo's AST on every run, translated
+    to Lean terms over ℝ and proved equal to the expressions of the model's `vectorCalib` (harness/anchors.py)"""
+    from .. import anchors
+    from ..shim import REPO
+    r = anchors.build(REPO, "C17", ["DPL.Model.LogReg"], anchors.c17_specs(), opens="DPL.LogReg", postlude=anchors.C17_POST)
+    ctx.count("formula_anchors", r["obligations"])
+    if r["errors"]:
+        r["error"] = "; ".join(r["errors"])
+    return r
